@@ -103,3 +103,11 @@ Definition check_kcase (c : kcase) : bool :=
   list_eqb kobs_eqb (map (fun o => (sends_of o, qcs_of o)) outs) obs &&
   osig_eqb (ks_agg st) fagg && Bool.eqb (ks_sent st) fsent && list_eqb N.eqb (ks_senders st) fsenders.
 Definition k_mismatches := mismatches_with check_kcase.
+
+(* vote cases from a tree in which the collector's private tables cannot be read by the harness (their
+   representation changed): only the certificates per stimulus are compared *)
+Definition check_vcase_nostate (c : vcase) : bool :=
+  let '(members, remote, store0, es, obs, _, _) := c in
+  let '(_, outs) := run (mkCfg members remote true) (init store0 0%N) es in
+  list_eqb (list_eqb qc_eqb) outs obs.
+Definition v_mismatches_nostate := mismatches_with check_vcase_nostate.
